@@ -39,7 +39,7 @@
          crash theorems into one statement over freezer histories; both are covered by the freezer-level
          correspondence (kind 9) and its Go oracle.
      zero_tail_detected  : C24_zero_tail_detected, FULL, with the undetectable case as its exact exception. *)
-From GV Require Import Lib.Tactics Storage.FreezerTable Storage.FreezerTableProofs Storage.FreezerTableInv Storage.Freezer Storage.FreezerProofs.
+From GV Require Import Lib.Tactics Storage.FreezerTable Storage.FreezerTableProofs Storage.FreezerTableInv Storage.Freezer Storage.FreezerProofs Storage.FreezerSuccess Storage.FreezerTableData Storage.FreezerCompose.
 Local Open Scope N_scope.
 
 (* checkIndex truncates a zero-filled tail exactly at the first zero entry, unless the last genuine
@@ -131,6 +131,56 @@ Theorem C24_freezer_repair_keeps_synced : forall ts f s h,
   fz_repair ts = Ok f -> s <= fz_head f /\ fz_tail f <= h.
 Proof. exact fz_repair_keeps_synced. Qed.
 Print Assumptions C24_freezer_repair_keeps_synced.
+
+(* THE TABLE-LEVEL CRASH THEOREM (the whole of newTable/repair(), clamp included).  For every table state
+   satisfying the full invariant DInv (index invariant + data files + handles), every cut of the index
+   and of every data file between durable and current length, every zero fill, either metadata record:
+   reopen succeeds; the reopened table satisfies DInv again (so it can crash again); its entries are
+   exactly the entries below the flush offset; tail marker and item offset are unchanged; the virtual
+   tail is clamped into the range; and the data of every surviving entry is byte-for-byte what it was. *)
+Theorem C24_reopen_contiguous_state : forall maxsz t ci cd (cm : bool),
+  DInv maxsz t -> cut_ok t ci cd ->
+  let vt := mvtail (if cm then t_mcur t else t_msyn t) in
+  exists t',
+    crash_reopen true t ci cd cm = Ok t' /\ DInv maxsz t' /\
+    t_offset t' = t_offset t /\ t_tail t' = t_tail t /\
+    t_items t' = t_offset t + N.of_nat (length (synced_of t)) /\
+    t_hidden t' = N.min (N.max vt (t_offset t)) (t_items t') /\
+    rest_of t' = synced_of t /\ t_head t' = efile (lastF t) /\
+    (forall e, In e (synced_of t) ->
+       exists f f', dget (efile e) (t_data t) = Some f /\ dget (efile e) (t_data t') = Some f' /\
+                    eoff e <= fsize f' /\
+                    firstn (N.to_nat (eoff e)) (fbytes f') = firstn (N.to_nat (eoff e)) (fbytes f)).
+Proof. exact open_crash_ok. Qed.
+Print Assumptions C24_reopen_contiguous_state.
+
+(* Freezer.repair does not fail on tables that satisfy the index invariant, hold their handles and head
+   file, and whose tails do not lie above the common head (unless the table is empty at its tail) *)
+Theorem C24_freezer_repair_succeeds : forall maxsz ts,
+  Forall (TW maxsz) ts ->
+  (forall t, In t ts -> t_items t <> 0 -> t_hidden t <= min_head ts \/ t_items t = t_hidden t) ->
+  exists f, fz_repair ts = Ok f.
+Proof. exact fz_repair_ok. Qed.
+Print Assumptions C24_freezer_repair_succeeds.
+
+(* NEWFREEZER AFTER A CRASH, composed: tables satisfying DInv, ANY crash state of each of them, and the
+   cross-table condition that TruncateTail's sync-first order maintains (no table recovers a tail above
+   the head another table recovers, unless it recovers the empty range at its tail): NewFreezer succeeds,
+   every table ends at exactly [Tail, Ancients), Ancients = the least head recovered by a non-empty
+   table, and a range [h, s) recovered by every table is kept *)
+Theorem C24_freezer_reopen_state : forall maxsz (cs : list crashed),
+  (forall c, In c cs -> DInv maxsz (cr_t c) /\ cut_ok (cr_t c) (cr_ci c) (cr_cd c) /\ t_head (cr_t c) + 2 < 65536) ->
+  (forall c, In c cs -> dur_head (cr_t c) <> 0 ->
+     (forall c', In c' cs -> dur_head (cr_t c') <> 0 -> rec_tail c <= dur_head (cr_t c')) \/ dur_head (cr_t c) = rec_tail c) ->
+  exists f, fz_open true (map cr_disk cs) = Ok f /\
+    length (fz_tables f) = length cs /\
+    Forall (fun t' => t_items t' = fz_head f /\ t_hidden t' = fz_tail f) (fz_tables f) /\
+    fz_tail f <= fz_head f /\
+    (forall c, In c cs -> dur_head (cr_t c) <> 0 -> fz_head f <= dur_head (cr_t c)) /\
+    (forall s h, cs <> [] -> h < s -> (forall c, In c cs -> s <= dur_head (cr_t c) /\ rec_tail c <= h) ->
+                 s <= fz_head f /\ fz_tail f <= h).
+Proof. exact fz_open_crash_ok. Qed.
+Print Assumptions C24_freezer_reopen_state.
 
 (* "reopen = Ok for every history and cut" is false of the code before the clamp in repair():
    files at their durable lengths + the current (never fsync'ed) metadata record *)
